@@ -13,3 +13,10 @@ package app
 //@ effects GetMaccPerms nondet.maprange
 //@ effects New nondet.maprange
 //@ effects init#1 global.write
+
+//@ // ---- C12: genesis import order. The crisis module asserts every registered invariant during its own InitGenesis, so each
+//@ // custom module whose invariant reads its own genesis state (the distributor's state sum, the vesting module's backing)
+//@ // must have loaded that state before, and bank must have restored the balances those invariants compare with ----
+//@ argorder C12 New SetOrderInitGenesis bank cfedistributor crisis
+//@ argorder C12 New SetOrderInitGenesis bank cfevesting crisis
+//@ argorder C12 New SetOrderInitGenesis auth bank
